@@ -39,3 +39,7 @@ claim("C09", "static: guard→effect facts of both Initialize siblings, frame-fi
       "Decides initialisation refusals, that header identity fields come from the link configuration before the checksum, that the per-link counter has one increment on the success edge of the hand-over only (no number burned by a refused write), checksum from the frame's own codec after encoding, and version-correct encoding at every site. Emitted sequences over long histories are not observed.",
       "uint8 wrap is the type's; per-link independence rests on one writer object per channel (C11 R11.4).",
       "DESIGN.md §5 C09")
+claim("C20", "static: symbolic byte layout of the stamp (big-endian table), shift-table extraction of the reader, sink-order analysis of tlog.Writer.Write (no user write before a pre-I/O failure point), error-flow-to-return check, entry-construction dominance (go/ssa)",
+      "Decides the 8-byte big-endian microsecond format on both sides, that nothing reaches the user's writer before the frame is known to be encodable, that all I/O errors are returned, that the reader shares one bufio.Reader with the frame reader and builds an Entry only after both reads succeeded. Round trips and cut-point behaviour are not observed.",
+      "Trusts bytes.Buffer, io.ReadFull, time.Unix/UnixMicro.",
+      "DESIGN.md §5 C20")
